@@ -24,8 +24,9 @@ Fixpoint atoi_acc (acc : Z) (s : str) : Z :=
   | [] => acc
   | c :: t => if isdigit c then atoi_acc (acc * 10 + (c - 48)) t else acc
   end.
-(* unsigned max = atoi(..): conversion int -> unsigned; atoi itself is only
-   defined up to INT_MAX (stated precondition: at most 9 digits) *)
+(* (unsigned) atoi(..) as glibc computes it for values below 2^63: what the
+   array callbacks of port-sugar.h (rBOILS_BEGIN) and the pinned
+   rtosc_match_number do *)
 Definition atoi_u (s : str) : Z := (atoi_acc 0 s) mod 4294967296.
 
 (* while(isdigit( **p)) ++*p; *)
@@ -35,10 +36,23 @@ Fixpoint skip_digits (s : str) : str :=
   | c :: t => if isdigit c then skip_digits t else s
   end.
 
+(* rtosc_read_number (dispatch.c): decimal value of the digit run, saturating
+   at UINT_MAX.  (The pinned code used atoi; see MatchRegress.v.) *)
+Definition umax : Z := 4294967295.
+Fixpoint read_acc (acc : Z) (s : str) : Z :=
+  match s with
+  | [] => acc
+  | c :: t =>
+      if isdigit c then
+        read_acc (if acc >? (umax - (c - 48)) / 10 then umax else acc * 10 + (c - 48)) t
+      else acc
+  end.
+Definition read_u (s : str) : Z := read_acc 0 s.
+
 (* returns (result, *pattern, *msg) *)
 Definition match_number (p m : str) : bool * str * str :=
   if negb (isdigit (hd0 p)) || negb (isdigit (hd0 m)) then (false, p, m)
-  else (atoi_u m <? atoi_u p, skip_digits p, skip_digits m).
+  else (read_u m <? read_u p, skip_digits p, skip_digits m).
 
 (* ---- rtosc_match_options (dispatch.c:35-70) ------------------------------- *)
 (* advance_until_end: while( *pattern && *pattern != '}') pattern++;
